@@ -986,7 +986,7 @@ def _cross_module_moves(forest, inv):
                     if n not in reachable:
                         continue
                     b = [_blank(_skeleton(st, _fn_locals(fn) | _params(fn))[0], volatile) for st in _flat_statements(fn)]
-                    pairs.append((_sim(a, b) + (0.3 if n == m else 0), m, n, 'f'))
+                    pairs.append(((1.0 if n == m else _sim(a, b)) + (0.3 if n == m else 0), m, n, 'f'))     # the copy is exact whatever it is called; similarity only chooses the name
             for m in ref_cs:
                 a = _blank(minv['values'][m], volatile)
                 for n, st in b_new_c.items():
